@@ -430,7 +430,27 @@ func runC23(r *Run) {
 		if !ok || !types.Identical(sl.Elem().Underlying(), dirEntryI) {
 			continue
 		}
-		c23SortRule(r, R2, fi, info)
+		if !c23SortRule(r, R2, fi, info) {
+			// the listing may be collected by a helper of the package that ReadDir calls
+			found := false
+			ast.Inspect(fi.Decl.Body, func(n ast.Node) bool {
+				call, ok := n.(*ast.CallExpr)
+				if !ok || found {
+					return true
+				}
+				if hf := callee(info, call); hf != nil && hf.Pkg() == fi.Obj.Pkg() {
+					for _, h := range r.P.Funcs("") {
+						if h.Obj == hf && !r.P.isTestFile(h.File) && c23SortRule(r, R2, h, info) {
+							found = true
+						}
+					}
+				}
+				return true
+			})
+			if !found {
+				r.Ob(R2, fi.Name()+"#collect", fi.Decl.Pos()).Unknown("neither ReadDir nor a function of the package it calls collects the names by appending inside a range over a map: the rule does not understand how the listing is ordered")
+			}
+		}
 		c23OffsetRule(r, "R-3", fi, info)
 		nRD++
 	}
@@ -484,7 +504,7 @@ func c23LaterFields(info *types.Info, par map[ast.Node]ast.Node, fi *FuncInfo, c
 }
 
 // c23SortRule: the names collected by ranging over a map are sorted before any order-sensitive use.
-func c23SortRule(r *Run, R string, fi *FuncInfo, info *types.Info) {
+func c23SortRule(r *Run, R string, fi *FuncInfo, info *types.Info) bool {
 	c := r.P.CFGOf(fi)
 	// map ranges and the slices appended inside them
 	type coll struct {
@@ -530,8 +550,7 @@ func c23SortRule(r *Run, R string, fi *FuncInfo, info *types.Info) {
 		return true
 	})
 	if len(colls) == 0 {
-		r.Ob(R, fi.Name()+"#collect", fi.Decl.Pos()).Unknown("ReadDir does not collect its names by appending inside a range over a map: the rule does not understand how the listing is ordered")
-		return
+		return false
 	}
 	for _, cc := range colls {
 		s := cc.slice
@@ -655,6 +674,7 @@ func c23SortRule(r *Run, R string, fi *FuncInfo, info *types.Info) {
 			o.OK("the collecting loop is not reachable from the sort (%d sort sites)", len(sortBlocks))
 		}
 	}
+	return true
 }
 
 func c23UseText(w string) string {
